@@ -11,12 +11,15 @@
     * TR returns the true range against the previous close; HeikinAshi's open follows
       `open' = (open + ohlc4)/2`.
     * TSI is the quotient of the doubly smoothed changes and doubly smoothed absolute changes (`C03_tsi`).
-  Vidya and the windowless ADI are at present covered by the correspondence run only
-  (Rust vs exact model and vs the from-scratch spec of `YataModel/Spec.lean` on every step).
+    * Vidya follows its adaptive recurrence (`C03_vidya`); the windowless ADI is the cumulative sum (`C03_adi0`).
+  Every C03 method has its theorem; independently the correspondence run compares Rust with the exact model and the model
+  with the from-scratch spec of `YataModel/Spec.lean` on every step.
 -/
 import YataProofs.Numeric.EMA
 import YataProofs.Numeric.Simple
 import YataProofs.Numeric.TSI
+import YataProofs.Numeric.Vidya
+import YataProofs.Numeric.ADI0
 import YataModel.Methods.Candles
 namespace Yata.C03
 open Yata
@@ -73,6 +76,20 @@ theorem C03_tsi {P short long : Nat} (v : K) (hs0 : 0 < short) (hs : short ≤ P
       outs.length = xs.length ∧ ∀ i (hi : i < outs.length), outs[i] = Spec.tsi short long v (xs.take (i + 1)) :=
   TSI.spec v hs0 hs hl0 hl xs
 
+/-- Vidya: the exponential average with smoothing 2/(n+1)·|CMO of the last n changes|, the input itself when there was
+    no movement in the window — for every stream and position -/
+theorem C03_vidya {P n : Nat} (v : K) (hn0 : 0 < n) (hn : n ≤ P - 1) (xs : List K) :
+    ∃ s0 outs s', Vidya.new P n v = .ok s0 ∧ runM Vidya.next s0 xs = .ok (outs, s') ∧
+      outs.length = xs.length ∧ ∀ i (hi : i < outs.length), outs[i] = Spec.vidya n v (xs.take (i + 1)) :=
+  Vidya.spec v hn0 hn xs
+
+/-- windowless ADI: the cumulative sum of CLV·volume -/
+theorem C03_adi0 {P : Nat} (hP : 0 < P) (c0 : Candle K) (cs : List (Candle K)) :
+    ∃ s0 outs s', ADI.new P 0 c0 = .ok s0 ∧ runM ADI.next s0 cs = .ok (outs, s') ∧
+      outs.length = cs.length ∧
+      ∀ i (hi : i < outs.length), outs[i] = ((cs.take (i + 1)).map fun c => c.clv * c.volume).sum :=
+  ADI.spec0 hP c0 cs
+
 /-- windowless Integral: the cumulative sum of everything fed -/
 theorem C03_integral0 {P : Nat} (hP : 0 < P) (v : K) (xs : List K) :
     ∃ s0 outs s', Integral.new P 0 v = .ok s0 ∧ runM Integral.next s0 xs = .ok (outs, s') ∧
@@ -108,3 +125,5 @@ end Yata.C03
 #print axioms Yata.C03.C03_tr
 #print axioms Yata.C03.C03_heikin_ashi
 #print axioms Yata.C03.C03_tsi
+#print axioms Yata.C03.C03_vidya
+#print axioms Yata.C03.C03_adi0
